@@ -422,6 +422,21 @@ func (w *World) unbox(x *Term, t types.Type) *Term {
 }
 
 func (e *Env) trSelector(n *ast.SelectorExpr) TV {
+	// ghost variables: $fsw.n, $out.data, ...
+	if id, ok := n.X.(*ast.Ident); ok && strings.HasPrefix(id.Name, "ghost_") {
+		name := "$" + strings.TrimPrefix(id.Name, "ghost_") + "." + n.Sel.Name
+		if so, ok := ghostSorts[name]; ok {
+			ty := types.Type(tyInt)
+			switch so {
+			case "(Array Int String)":
+				ty = types.NewMap(tyInt, tyString)
+			case "(Array Int Slice)":
+				ty = types.NewMap(tyInt, types.NewSlice(types.Typ[types.Byte]))
+			}
+			return TV{e.heap(e.state, name, so), ty}
+		}
+		e.fail("unknown ghost variable %s", name)
+	}
 	// qualified identifier: pkg.Const / pkg.Var
 	if id, ok := n.X.(*ast.Ident); ok {
 		if _, bound := e.lookup(id.Name); !bound && e.scope != nil {
@@ -480,6 +495,11 @@ func (e *Env) trIndex(n *ast.IndexExpr) TV {
 			return TV{A("str.to_code", A("str.at", v.T, i.T)), types.Typ[types.Byte]}
 		}
 	case *types.Map:
+		if sel, ok := n.X.(*ast.SelectorExpr); ok {
+			if id, ok := sel.X.(*ast.Ident); ok && strings.HasPrefix(id.Name, "ghost_") {
+				return TV{Select(v.T, i.T), u.Elem()}
+			}
+		}
 		ks, vs := e.sortOf(u.Key()), e.sortOf(u.Elem())
 		val := e.heap(e.state, "M."+ks+"."+vs+".val", arraySort("Int", arraySort(ks, vs)))
 		return TV{Select(Select(val, v.T), i.T), u.Elem()}
@@ -580,6 +600,18 @@ func (e *Env) typeArg(x ast.Expr) types.Type {
 }
 
 func (e *Env) trCall(n *ast.CallExpr) TV {
+	// pkg.specName(...): specification functions are global; the qualifier is documentation
+	if sel, ok := n.Fun.(*ast.SelectorExpr); ok {
+		if id, ok := sel.X.(*ast.Ident); ok {
+			if _, bound := e.lookup(id.Name); !bound && e.scope != nil && e.scope.Aliases[id.Name] != nil {
+				if _, isSpec := e.w.P.Specs[sel.Sel.Name]; isSpec {
+					c := *n
+					c.Fun = sel.Sel
+					return e.trCall(&c)
+				}
+			}
+		}
+	}
 	// method-style calls
 	if sel, ok := n.Fun.(*ast.SelectorExpr); ok {
 		if tv, ok := e.trMethodCall(sel, n.Args); ok {
@@ -725,7 +757,7 @@ func (e *Env) trCall(n *ast.CallExpr) TV {
 		for i := range n.Args {
 			args[i] = e.tr(n.Args[i])
 		}
-		return e.w.applyPure(e, pf, args)
+		return e.w.applyPureAlias(e, id.Name, pf, args)
 	}
 	e.fail("unknown function %s", id.Name)
 	return TV{}
@@ -793,7 +825,7 @@ func (e *Env) applySpec(sf *SpecFunc, args []TV) TV {
 	for i, a := range args {
 		coerced[i] = e.coerce(a, sf.Params[i].Type)
 	}
-	if sf.Body != nil && !sf.Recursive {
+	if sf.Body != nil && !sf.Recursive && !sf.Opaque {
 		if e.depth > 60 {
 			e.fail("spec inlining too deep at %s", sf.Name)
 		}
@@ -867,7 +899,7 @@ func (w *World) ensureReads() {
 		changed := false
 		for _, n := range names {
 			sf := w.P.Specs[n]
-			if sf.Body == nil || !sf.Recursive {
+			if sf.Body == nil || (!sf.Recursive && !sf.Opaque) {
 				continue
 			}
 			fh := &fixedHeap{m: map[string]*Term{}, reads: map[string]string{}, w: w}
